@@ -39,7 +39,22 @@ pub struct Case {
     pub plans: Vec<Plan>,
 }
 
+/// every healthy head is padded to EXACTLY this RFC 9114 4.2.2 size: a healthy message sits at the limit, the
+/// oversized one above it, the malformed ones below it
 const LIMIT: u64 = 300;
+
+/// the healthy head of the role, padded with one regular field to exactly LIMIT
+fn healthy_head(me: Endpoint) -> Vec<u8> {
+    let f = |n: &str, v: &[u8]| (n.as_bytes().to_vec(), v.to_vec());
+    let mut fields = match me {
+        Endpoint::Server => vec![f(":method", b"GET"), f(":scheme", b"https"), f(":authority", b"a"), f(":path", b"/")],
+        Endpoint::Client => vec![f(":status", b"200")],
+    };
+    let have: u64 = fields.iter().map(|(n, v)| (n.len() + v.len() + 32) as u64).sum();
+    let pad = (LIMIT - have - 3 - 32) as usize;
+    fields.push(f("pad", &vec![b'p'; pad]));
+    rf::frame(rf::HEADERS, &rq::encode_literal_section(&fields, false))
+}
 
 fn body_for(id: u64) -> Vec<u8> {
     (0..23u64).map(|i| (i * 7 + id * 13 + 1) as u8).collect()
@@ -48,8 +63,7 @@ fn body_for(id: u64) -> Vec<u8> {
 fn healthy_message(me: Endpoint, id: u64) -> Vec<u8> {
     let mut b = Vec::new();
     match me {
-        Endpoint::Server => b.extend(rf::frame(rf::HEADERS, REQ_SECTION)),
-        Endpoint::Client => b.extend(rf::frame(rf::HEADERS, RESP_SECTION)),
+        Endpoint::Server | Endpoint::Client => b.extend(healthy_head(me)),
     }
     let body = body_for(id);
     b.extend(rf::frame(rf::DATA, &body[..10]));
@@ -473,15 +487,14 @@ pub fn run(args: &Args) -> i32 {
     let mut rep = Report::new("C07", args.tier, args.seed, "model_checking");
     rep.exhaustive = true;
     rep.rule = format!(
-        "{n} concurrent requests on one connection; each request is healthy or suffers one fault of {{RESET(0x10c) after 0 / 1 / header-boundary / mid-DATA bytes, RESET(0) mid-frame, STOP_SENDING(0x10c), uppercase field name, missing :method/:status, LF in a value, section over the limit, FIN before HEADERS (server role)}}; every assignment with at least one faulty and (when n allows) one healthy request, for a real server and a real client against a scripted peer that plays the streams round-robin in three writes each. Every execution with <= {bound} deviations (scheduling among handler/request tasks, driver and script; an application pause between any two calls of the request API; chunk cuts and delayed delivery on every request stream), plus one-byte-per-read. Oracle: healthy requests deliver exactly their own position-coded bytes and complete, their responses are complete on the wire; no close(); drivers report no error; each faulty request reports the stream-level error the property names and never a connection error. states = distinct (transport cursors, per-request progress) fingerprints; non-trivial = executions with a deviation."
+        "{n} concurrent requests on one connection; each request is healthy or suffers one fault of {{RESET(0x10c) after 0 / 1 / header-boundary / mid-DATA bytes, RESET(0) mid-frame, STOP_SENDING(0x10c), uppercase field name, missing :method/:status, LF in a value, section over the limit, FIN before HEADERS (server role)}}, healthy heads padded to exactly the configured limit; every assignment with at least one faulty and (when n allows) one healthy request, for a real server and a real client against a scripted peer that plays the streams round-robin in three writes each. Every execution with <= {bound} deviations (scheduling among handler/request tasks, driver and script; an application pause between any two calls of the request API; chunk cuts and delayed delivery on every request stream), plus one-byte-per-read. Oracle: healthy requests deliver exactly their own position-coded bytes and complete, their responses are complete on the wire; no close(); drivers report no error; each faulty request reports the stream-level error the property names and never a connection error. states = distinct (transport cursors, per-request progress) fingerprints; non-trivial = executions with a deviation."
     );
     rep.assumptions = vec!["a STOP_SENDING that arrives after the sending half completed is not reported (ok accepted)".into(), "client role: a response stream FIN-ed before HEADERS is not in the fault set (DESIGN.md 7)".into()];
     rep.bound_note = format!("{n} requests, deviation bound {bound}");
     let mut cases: Vec<Case> = Vec::new();
     for me in [Endpoint::Server, Endpoint::Client] {
         let hlen = match me {
-            Endpoint::Server => rf::frame(rf::HEADERS, REQ_SECTION).len(),
-            Endpoint::Client => rf::frame(rf::HEADERS, RESP_SECTION).len(),
+            Endpoint::Server | Endpoint::Client => healthy_head(me).len(),
         };
         let mut plans = vec![
             Plan::Healthy,
